@@ -76,7 +76,7 @@ theorem divFloor_limbs (qs : List Nat) (hC : Chain qs) (level : Nat) (hl : level
 theorem divRound_limbs (qs : List Nat) (hC : Chain qs) (level : Nat) (hl : level < qs.length)
     (p0 : Rows) (X : List Nat)
     (hrows : ∀ i, i ≤ level → row p0 i = X.map (· % modulus qs i)) :
-    (divRound qs level p0).2 = (List.range level).map fun i => X.map fun x =>
+    divRound qs level p0 = (List.range level).map fun i => X.map fun x =>
       ((x + half (modulus qs level)) / modulus qs level) % modulus qs i := by
   rw [divRound_rows qs level p0 X hrows
     (fun i hi => hC.odd _ (modulus_mem qs i (by omega)))
@@ -154,12 +154,12 @@ theorem iterRound_limbs (qs : List Nat) (hC : Chain qs) :
     simp only [iterRound, roundSeq]
     have hstep := divRound_limbs qs hC level hl p0 X hrows
     have hrows' : ∀ k, k ≤ level - 1 →
-        row (divRound qs level p0).2 k
+        row (divRound qs level p0) k
           = (X.map (fun x => (x + half (modulus qs level)) / modulus qs level)).map (· % modulus qs k) := by
       intro k hk
       rw [hstep, row_map_range level _ k (by omega), List.map_map]
       rfl
-    have := ih (level - 1) (divRound qs level p0).2
+    have := ih (level - 1) (divRound qs level p0)
       (X.map (fun x => (x + half (modulus qs level)) / modulus qs level)) (by omega) (by omega)
       hrows' i (by omega)
     rw [this, List.map_map]
@@ -221,17 +221,17 @@ theorem divFloorMany_limbs (qs : List Nat) (hC : Chain qs) (level nb : Nat) (hl 
     · refine ⟨iterFloor qs nb level p0, ?_, iterFloor_limbs qs hC nb level p0 X hl hnb hrows⟩
       simp [h0, h1, Nat.not_lt.mpr hnb]
 
-/-- **DivRoundByLastModulusMany, limb level**: no panic, and every limb of row `i ≤ level − nb` of `p1` is the
+/-- **DivRoundByLastModulusMany, limb level**: no panic, `p0` untouched, and every limb of row `i ≤ level − nb` of `p1` is the
 residue of the `nb`-fold round-half-up quotient. -/
 theorem divRoundMany_limbs (qs : List Nat) (hC : Chain qs) (level nb : Nat) (hl : level < qs.length)
     (hnb : nb ≤ level) (p0 : Rows) (X : List Nat)
     (hrows : ∀ i, i ≤ level → row p0 i = X.map (· % modulus qs i)) :
-    ∃ r, divRoundMany qs level nb p0 = some r ∧ ∀ i, i ≤ level - nb →
-      row r.2 i = X.map fun x => roundSeq qs level nb x % modulus qs i := by
+    ∃ p1, divRoundMany qs level nb p0 = some p1 ∧ ∀ i, i ≤ level - nb →
+      row p1 i = X.map fun x => roundSeq qs level nb x % modulus qs i := by
   unfold divRoundMany
   by_cases h0 : nb = 0
   · subst h0
-    refine ⟨(p0, p0.take (level + 1)), by simp, ?_⟩
+    refine ⟨p0.take (level + 1), by simp, ?_⟩
     intro i hi
     simp only [roundSeq]
     rw [row_take p0 (level + 1) i (by omega), hrows i (by omega)]
@@ -239,10 +239,7 @@ theorem divRoundMany_limbs (qs : List Nat) (hC : Chain qs) (level nb : Nat) (hl 
     · subst h1
       refine ⟨divRound qs level p0, by simp, ?_⟩
       exact iterRound_limbs qs hC 1 level p0 X hl hnb hrows
-    · obtain ⟨m, rfl⟩ : ∃ m, nb = m + 1 := ⟨nb - 1, by omega⟩
-      refine ⟨((divRound qs level p0).1, iterRound qs (m + 1) level p0), ?_,
-        iterRound_limbs qs hC (m + 1) level p0 X hl hnb hrows⟩
-      have hm : m ≠ 0 := by omega
-      simp [hm, Nat.not_lt.mpr hnb, iterRound]
+    · refine ⟨iterRound qs nb level p0, ?_, iterRound_limbs qs hC nb level p0 X hl hnb hrows⟩
+      simp [h0, h1, Nat.not_lt.mpr hnb]
 
 end Lattigo.Scaling
